@@ -637,36 +637,43 @@ class Body:
         kind: 'assign' (stmt), 'call' (call destination), 'part' (projection store)."""
         if self._defs is None:
             d = defaultdict(list)
-            # a body whose paths were split on the variant of an inlined return value (core/inline.py) holds
-            # copies of one original block: a definition is counted once
-            seen_orig = set()
             for b, blk in enumerate(self.blocks):
-                ob = blk.get("orig_bb")
                 for i, st in enumerate(blk["stmts"]):
                     if st["k"] == "assign":
-                        if ob is not None:
-                            if (ob, i) in seen_orig:
-                                continue
-                            seen_orig.add((ob, i))
                         p = st["place"]
                         kind = "assign" if not p["p"] else "part"
                         d[p["l"]].append((Site(self, b, i), kind, st))
                 t = blk["term"]
                 if t and t["k"] == "call":
-                    if ob is not None:
-                        if (ob, "term") in seen_orig:
-                            continue
-                        seen_orig.add((ob, "term"))
                     p = t["dest"]
                     kind = "call" if not p["p"] else "part"
                     d[p["l"]].append((Site(self, b, "term"), kind, t))
             self._defs = d
         return self._defs
 
+    def unique_defs(self, l):
+        """whole-local definitions of l, the copies of one original statement (split bodies) counted once"""
+        ds = [x for x in self.defs.get(l, []) if x[1] != "part"]
+        if len(ds) > 1 and self.j.get("split_variants"):
+            seen, out = set(), []
+            for x in ds:
+                k = (self.blocks[x[0].bb].get("orig_bb"), x[0].idx)
+                if k[0] is None or k not in seen:
+                    seen.add(k)
+                    out.append(x)
+            return out
+        return ds
+
     def single_def(self, l):
         ds = [x for x in self.defs.get(l, []) if x[1] != "part"]
         if len(ds) == 1:
             return ds[0]
+        if len(ds) > 1 and self.j.get("split_variants"):
+            # a body whose paths were split (core/inline.py) holds copies of one original block: the copies of
+            # one definition count once
+            keys = {(self.blocks[x[0].bb].get("orig_bb"), x[0].idx) for x in ds}
+            if len(keys) == 1 and None not in {k[0] for k in keys}:
+                return ds[0]
         return None
 
     def resolve_copy(self, o, depth=12):
@@ -771,7 +778,7 @@ class Facts:
             from . import inline
             known = inline.known_functions(self.crate)
             if known is not None:
-                self.inlined = inline.inline_unknown(self.j["bodies"], known)
+                self.inlined = inline.inline_unknown(self.j["bodies"], known, self.j.get("adts"))
         self.bodies = {k: Body(k, v, self) for k, v in self.j["bodies"].items()}
         self.statics = self.j["statics"]
         self.consts = {c["name"]: c for c in self.j["consts"]}
